@@ -5,7 +5,8 @@
 (*                                                                           *)
 (* sp == [q    : 39 | 34     quote used for names and string literals        *)
 (*        brk  : BOOLEAN     ['name'] / [*] instead of .name / .*            *)
-(*        spc  : BOOLEAN     one space at every optional-space position      *)
+(*        spc  : 0, 1, 2     that many spaces at every optional-space position; *)
+(*               3 / 4       two spaces after / before the whole path only     *)
 (*        omit : BOOLEAN     drop the leading `$` when the grammar allows it *)
 (*        plus : BOOLEAN     verbose numerals: +01, -01, 1:2: , +1.0         *)
 (*        up   : BOOLEAN     True / FALSE / NULL spellings ]                 *)
@@ -13,9 +14,11 @@
 (* StepTexts gives the text the library reports in `path=` for each step.    *)
 EXTENDS Semantics
 
-Canon == [q |-> 39, brk |-> FALSE, spc |-> FALSE, omit |-> FALSE, plus |-> FALSE, up |-> FALSE]
+Canon == [q |-> 39, brk |-> FALSE, spc |-> 0, omit |-> FALSE, plus |-> FALSE, up |-> FALSE]
 
-SP(sp) == IF sp.spc THEN <<32>> ELSE <<>>
+SP(sp) == IF sp.spc <= 2 THEN [i \in 1..sp.spc |-> 32] ELSE <<>>
+SPLead(sp) == IF sp.spc = 4 THEN <<32, 32>> ELSE SP(sp)
+SPTrail(sp) == IF sp.spc = 3 THEN <<32, 32>> ELSE SP(sp)
 
 RECURSIVE Digits(_)
 Digits(n) == IF n < 10 THEN <<48 + n>> ELSE Digits(n \div 10) \o <<48 + (n % 10)>>
@@ -133,8 +136,8 @@ QueryText(q, sp) ==
 CanOmit(p) == p.steps # <<>> /\ p.steps[1].k # "rec"
 PathText(p, sp) ==
   LET om == sp.omit /\ CanOmit(p) /\ p.root = "$" IN
-  SP(sp) \o (IF om THEN <<>> ELSE IF p.root = "$" THEN <<36>> ELSE <<64>>)
-         \o StepsText(p.steps, IF om THEN "first" ELSE "dot", sp) \o FuncsText(p.funcs) \o SP(sp)
+  SPLead(sp) \o (IF om THEN <<>> ELSE IF p.root = "$" THEN <<36>> ELSE <<64>>)
+         \o StepsText(p.steps, IF om THEN "first" ELSE "dot", sp) \o FuncsText(p.funcs) \o SPTrail(sp)
 
 \* texts reported for steps 1..n and then for the functions
 StepTexts(p, sp) ==
